@@ -13,7 +13,13 @@ real code without truncation is the final `mpf(1.0) * value`, reproduced on the 
 Monitors (the property itself on the real code, independent of the Lean model): for every generated network the
 values of the LR sweep, RL sweep, transposed sweep, every split, and the no-op truncation settings must all equal
 an independent exact evaluation (`py_exact`: pure-Python cell-by-cell transfer contraction with Python ints /
-Fractions, sharing nothing with qecsim).
+Fractions, sharing nothing with qecsim).  "All start/stop/step ranges" (`range_battery`): the full column range in
+every spelling that Python's slice resolution maps to all columns (None / in-range / negative / clamped out-of-range
+start and stop; step None, 1, -1) must give the exact value — an exception on a valid network is a failure — and the
+columns cut into 2..4 consecutive segments, each contracted by its own spelled range (forwards or backwards), recombined
+with contract_pairwise (either association) / inner_product and the multipliers, must give the exact value; also under a
+no-op truncation setting.  The failing-input search evaluates every spelling (one segment at a time) on the recorded
+network and on a fixed family of small networks.
 
 Theorems (Props/C11.lean), all proved: over any commutative semiring and any grid shape / compatible bond dimensions
 the LR sweep, the RL sweep, every split-and-recombine, the rows-first merge and the columns-first merge give the same
@@ -44,7 +50,9 @@ LEVEL = 'proof'
 RULE = ('random rectangular networks of 4-leg tensors: shapes 1..5 x 1..5, every bond dimension drawn from 1..3 '
         'independently, None padding at column tops/bottoms (facing bonds 1), entries from {0, small, up to 1e6} with '
         'signs, dtypes int64 / object (Python ints) / float64 holding integers; for each network: full LR, RL, '
-        'transposed sweeps, every split column, no-op truncation settings (chi>=bond, chi=0, tol=0/None, all-false '
+        'transposed sweeps, every split column, the full range and 2..4 consecutive column segments in every / random '
+        'start/stop/step spelling (None, in-range, negative, clamped; step None/1/-1) recombined with '
+        'contract_pairwise/inner_product and multipliers, no-op truncation settings (chi>=bond, chi=0, tol=0/None, all-false '
         'mask), random start/stop/step incl. negative and out-of-range, truncating settings (model: svd), wrong-shape '
         'mask; model exactValue (brute force) for networks with <= 20000 bond assignments; unit ops on random and '
         'malformed MPS (non-contiguous None, non-scalar, length mismatch, incompatible bonds, broadcast bonds). '
@@ -333,6 +341,89 @@ def impl_split(tn, k, chi=None, tol=None, mask=None):
     return guarded(f)
 
 
+def range_spellings(lo, hi, C):
+    """every (start, stop, step) spelling — None, in-range, negative-index, clamped out-of-range; step None / 1 / -1 —
+    whose Python slice resolution over C columns is exactly the columns lo..hi-1, ascending (step None / 1) or
+    descending (step -1).  Resolution is Python's own `slice.indices`, nothing of qecsim."""
+    fw = list(range(lo, hi))
+    bw = fw[::-1]
+    cands = [None]
+    for v in (lo, hi, lo - 1, hi - 1, lo - C, hi - C, lo - 1 - C, hi - 1 - C, 0, -1, C, C - 1, C + 3, -C, -C - 1, -C - 4):
+        if v not in cands:
+            cands.append(v)
+    out = []
+    for step in (None, 1, -1):
+        want = bw if step == -1 else fw
+        for a in cands:
+            for b in cands:
+                if list(range(*slice(a, b, step).indices(C))) == want:
+                    out.append((a, b, step))
+    return out
+
+
+def default_spelling(lo, hi, C, last=False):
+    """the spellings of impl_split: left / middle parts forwards with step None, the last part backwards"""
+    if last:
+        return (-1, lo - 1, -1)
+    return (None if lo == 0 else lo, hi, None)
+
+
+def partitions(C, max_parts):
+    """cut points 0 = c0 < c1 < … < cm = C for 2 <= m <= max_parts"""
+    out = []
+    for m in range(2, max_parts + 1):
+        for cuts in itertools.combinations(range(1, C), m - 1):
+            out.append((0,) + cuts + (C,))
+    return out
+
+
+class Parts:
+    """partial contractions of one network by spelled column range (cached), and their recombination"""
+
+    def __init__(self, tn, **kw):
+        self.tn, self.kw, self.cache = tn, kw, {}
+
+    def part(self, sp):
+        from qecsim.tensortools import mps2d
+        if sp not in self.cache:
+            def f():
+                r = mps2d.contract(self.tn, start=sp[0], stop=sp[1], step=sp[2], **self.kw)
+                if not isinstance(r, tuple):
+                    return 'not-a-partial-result'
+                if r[0] is None:
+                    return 'empty-partial-result'
+                return r
+            self.cache[sp] = guarded(f)
+        return self.cache[sp]
+
+    def combine(self, spellings, assoc='left'):
+        """value of the network from the partial contractions of consecutive column segments (left to right):
+        contract_pairwise folds the segments from the left (or from the right), inner_product closes, multipliers
+        multiply"""
+        from qecsim.tensortools import mps as tt_mps
+        ps = [self.part(sp) for sp in spellings]
+        for sp, p in zip(spellings, ps):
+            if isinstance(p, str):
+                return '{} in contract(start={}, stop={}, step={})'.format(p, *sp)
+
+        def f():
+            if assoc == 'left':
+                acc = ps[0][0]
+                for p in ps[1:-1]:
+                    acc = tt_mps.contract_pairwise(acc, p[0])
+                v = tt_mps.inner_product(acc, ps[-1][0])
+            else:
+                acc = ps[-1][0]
+                for p in ps[-2:0:-1]:
+                    acc = tt_mps.contract_pairwise(p[0], acc)
+                v = tt_mps.inner_product(ps[0][0], acc)
+            for p in ps:
+                v = v * p[1]
+            i = cint(v)
+            return 'ok ' + (str(i) if i is not None else 'nonint:{!r}'.format(v))
+        return guarded(f)
+
+
 def round_like_impl(x):
     """the real full contraction returns mpf(1.0) * value: one rounding to mp.prec bits"""
     return int(mp.mpf(1.0) * int(x))
@@ -384,9 +475,13 @@ def max_bond_cap(tn):
     return cap
 
 
-def property_battery(tn, rng=None, settings=True):
+def property_battery(tn, rng=None, settings=True, ranges='sample'):
     """evaluate the property on the real code for one compatible network.
-    Returns None when it holds, else a dict naming the failing evaluation (values as exact ints)."""
+    Returns None when it holds, else a dict naming the failing evaluation (values as exact ints).
+    ranges: 'sample' — every partition of the columns into 2 segments and some into 3 / 4 segments, one random
+    spelling of every segment's start/stop/step, a few random spellings of the full range; 'all' — every spelling of
+    the full range, and for every partition into <= 3 segments every spelling of one segment at a time (the others
+    spelled as impl_split does), both associations of the recombination."""
     from qecsim.tensortools import mps2d
     import random as _r
     rng = rng or _r.Random(0)
@@ -416,15 +511,83 @@ def property_battery(tn, rng=None, settings=True):
         got = impl_split(tn, k)
         if got != 'ok ' + str(round_like_impl(exact)) and got != 'ok ' + str(exact):
             return bad('split-and-recombine differs from the exact value', got, call='split', k=k)
+    r = range_battery(tn, rng, exact, want, bad, ranges)
+    if r:
+        return r
     if settings:
         cap = max_bond_cap(tn)
         for name, kw in noop_settings(rng, tn, cap):
-            for extra in ({}, {'step': -1}):
+            for extra in ({}, {'step': -1}, {'step': 1}):
                 a = dict(kw); a.update(extra)
                 got = impl_contract(tn, **a)
                 if got != want:
                     return bad('no-op truncation setting changes the value', got, call='contract', setting=name,
                                step=extra.get('step'))
+        # … also under spelled ranges and recombined partial contractions (one setting per network)
+        name, kw = rng.choice(noop_settings(rng, tn, cap))
+        r = range_battery(tn, rng, exact, want, bad, 'sample', kw_name=name, **kw)
+        if r:
+            return r
+    return None
+
+
+def range_battery(tn, rng, exact, want, bad, ranges='sample', kw_name=None, **kw):
+    """"all start/stop/step ranges": the full range in every spelling gives the exact value; the column range cut into
+    consecutive segments, each contracted by its own spelled range (forwards or backwards) and recombined with
+    contract_pairwise / inner_product and the multipliers, gives the exact value"""
+    R, C = tn.shape
+    if C == 0:
+        return None
+    okp = ('ok ' + str(round_like_impl(exact)), 'ok ' + str(exact))
+    full = range_spellings(0, C, C)
+    if ranges == 'sample':
+        pick = [(None, None, 1), (0, C, 1)] + [rng.choice(full) for _ in range(3)]
+    else:
+        pick = full
+    for sp in pick:
+        got = impl_contract(tn, start=sp[0], stop=sp[1], step=sp[2], **kw)
+        if got != want:
+            return bad('contraction over the full column range, spelled start={} stop={} step={}, differs from the '
+                       'exact value'.format(*sp), got, call='contract(tn, range)', ranges=[list(sp)],
+                       **({'setting': kw_name} if kw_name else {}))
+    parts = Parts(tn, **kw)
+    spell = {}
+
+    def spellings(lo, hi):
+        if (lo, hi) not in spell:
+            spell[(lo, hi)] = range_spellings(lo, hi, C)
+        return spell[(lo, hi)]
+
+    def check(sps, assoc):
+        got = parts.combine(sps, assoc)
+        if got not in okp:
+            return bad('partial contractions of {} consecutive column segments, recombined with contract_pairwise / '
+                       'inner_product and the multipliers, differ from the exact value'.format(len(sps)), got,
+                       call='parts', ranges=[list(sp) for sp in sps], assoc=assoc, expected_value=okp[0],
+                       **({'setting': kw_name} if kw_name else {}))
+        return None
+    if ranges == 'sample':
+        todo = partitions(C, 2)
+        p3 = [p for p in partitions(C, 3) if len(p) == 4]
+        todo += rng.sample(p3, min(3, len(p3)))
+        p4 = [p for p in partitions(C, 4) if len(p) == 5]
+        todo += rng.sample(p4, min(1, len(p4)))
+        for cuts in todo:
+            sps = [rng.choice(spellings(lo, hi)) for lo, hi in zip(cuts, cuts[1:])]
+            r = check(sps, rng.choice(['left', 'right']))
+            if r:
+                return r
+        return None
+    for cuts in partitions(C, 3):
+        segs = list(zip(cuts, cuts[1:]))
+        dflt = [default_spelling(lo, hi, C, last=(i == len(segs) - 1)) for i, (lo, hi) in enumerate(segs)]
+        for i, (lo, hi) in enumerate(segs):
+            for sp in spellings(lo, hi):
+                sps = list(dflt); sps[i] = sp
+                for assoc in (('left', 'right') if len(segs) > 2 else ('left',)):
+                    r = check(sps, assoc)
+                    if r:
+                        return r
     return None
 
 
@@ -482,6 +645,20 @@ def run(ctx):
             ctx.case(contract_line(tn, stop=k), impl_contract(tn, stop=k), nontrivial=nontriv, meta=meta)
             ctx.case(contract_line(tn, start=-1, stop=k - 1, step=-1),
                      impl_contract(tn, start=-1, stop=k - 1, step=-1), nontrivial=nontriv, meta=meta)
+        # spelled ranges: the full range and two random segments, each in a random spelling
+        sp = rng.choice(range_spellings(0, C, C))
+        ctx.case(contract_line(tn, start=sp[0], stop=sp[1], step=sp[2]),
+                 impl_contract(tn, start=sp[0], stop=sp[1], step=sp[2]), nontrivial=nontriv,
+                 meta=dict(meta, args=[None, None] + list(sp)), post=post_full)
+        ctx.count('full_range_step', sp[2])
+        for _ in range(2 if C >= 2 else 0):
+            lo = rng.randint(0, C - 1)
+            hi = rng.randint(lo + 1, C if lo > 0 else C - 1)
+            sp = rng.choice(range_spellings(lo, hi, C))
+            ctx.case(contract_line(tn, start=sp[0], stop=sp[1], step=sp[2]),
+                     impl_contract(tn, start=sp[0], stop=sp[1], step=sp[2]), nontrivial=nontriv,
+                     meta=dict(meta, args=[None, None] + list(sp)))
+            ctx.count('segment_step', sp[2])
         # no-op settings and truncating settings
         cap = max_bond_cap(tn)
         for name, kw in noop_settings(rng, tn, cap):
@@ -740,6 +917,15 @@ def float_explore(ctx):
             checks.append(('split k={}'.format(k), sp, 1e-9))
             if not wide:
                 checks.append(('split k={} tol=1e-14'.format(k), lambda k=k: sp(k, 1e-14), 1e-7))
+        # spelled ranges: the full range, and consecutive segments recombined (random spellings)
+        fsp = rng.choice(range_spellings(0, C, C))
+        checks.append(('range {}'.format(json.dumps([list(fsp)], separators=(',', ':'))),
+                       lambda fsp=fsp: mps2d.contract(tn, start=fsp[0], stop=fsp[1], step=fsp[2]), 1e-9))
+        for cuts in rng.sample(partitions(C, 4), min(3, len(partitions(C, 4)))):
+            sps = [rng.choice(range_spellings(lo, hi, C)) for lo, hi in zip(cuts, cuts[1:])]
+            assoc = rng.choice(['left', 'right'])
+            checks.append(('parts {} {}'.format(json.dumps([list(x) for x in sps], separators=(',', ':')), assoc),
+                           lambda sps=sps, assoc=assoc: float_parts(tn, sps, assoc), 1e-9))
         for name, f, tolr in checks:
             evals += 1
             try:
@@ -755,11 +941,30 @@ def float_explore(ctx):
     ctx.explored['float_and_lossless_truncation'] = {
         'evaluations': evals, 'exhaustive': False,
         'rule': 'positive float64 networks up to 5x5, bonds 1..3, zeros, half of them with magnitudes 1e-6..1e6; LR/RL/transposed/'
-                'every split without truncation within 1e-9 relative of the exact rational value; for the networks of '
+                'every split, the full range in a random start/stop/step spelling and 2..4 consecutive segments in random '
+                'spellings recombined, without truncation within 1e-9 relative of the exact rational value; for the networks of '
                 'comparable scale the same with tol=1e-14 (SVD path, multipliers != 1) within 1e-7 relative'}
     ctx.assumptions[:] = ['LAPACK QR/SVD (scipy.linalg) accuracy on the truncating path (explored only)',
                           'numpy einsum/reshape on int64 / object / float64 arrays behave as numpy documents',
                           'mpmath mpf multiplication rounds once to mp.prec bits']
+
+
+def float_parts(tn, sps, assoc, tol=None):
+    from qecsim.tensortools import mps2d, mps as tt_mps
+    ps = [mps2d.contract(tn, start=a, stop=b, step=c, tol=tol) for a, b, c in sps]
+    if assoc == 'left':
+        acc = ps[0][0]
+        for p in ps[1:-1]:
+            acc = tt_mps.contract_pairwise(acc, p[0])
+        v = tt_mps.inner_product(acc, ps[-1][0])
+    else:
+        acc = ps[-1][0]
+        for p in ps[-2:0:-1]:
+            acc = tt_mps.contract_pairwise(p[0], acc)
+        v = tt_mps.inner_product(ps[0][0], acc)
+    for p in ps:
+        v = v * p[1]
+    return v
 
 
 def _mpf_frac(v):
@@ -771,18 +976,23 @@ def _mpf_frac(v):
 # ------------------------------------------------------------------------------------------ failing-input search
 
 STD_NETS = None
+_SEARCHED = {}   # network -> battery result (every network is searched once per run)
 
 
 def std_nets():
     """a fixed family of small compatible networks used to look for a concrete failing input when the broken
     correspondence is on an internal op"""
     import random
+    global STD_NETS
+    if STD_NETS is not None:
+        return STD_NETS
     rng = random.Random(20240611)
     out = []
     for (R, C) in [(1, 2), (2, 2), (2, 3), (3, 2), (3, 3), (2, 4), (3, 4), (4, 3)]:
         for pad in (False, True):
             for dtype in ('int64', 'object'):
                 out.append(gen_net(rng, R, C, dtype, 'small', maxbond=3 if R * C <= 9 else 2, pad=pad)[0])
+    STD_NETS = out
     return out
 
 
@@ -796,13 +1006,15 @@ def search(m):
         except Exception:
             pass
     for tn in cands + std_nets():
-        try:
-            py_exact(tn)
-        except Exception:
-            continue
-        r = property_battery(tn)
-        if r:
-            return r
+        key = wire_net(tn) + (net_dtype(tn),)
+        if key not in _SEARCHED:
+            try:
+                py_exact(tn)
+                _SEARCHED[key] = property_battery(tn, ranges='all')
+            except Exception:
+                _SEARCHED[key] = None
+        if _SEARCHED[key]:
+            return _SEARCHED[key]
     return None
 
 
@@ -814,7 +1026,7 @@ def replay(ctx, path):
         inp = ce.get('input') if isinstance(ce.get('input'), dict) else ce
         if inp and inp.get('net_shape'):
             tn = parse_net(inp['net_shape'], inp['net_sites'], inp.get('dtype', 'int64'))
-            r = property_battery(tn)
+            r = replay_ranges(tn, inp) or property_battery(tn, ranges='all')
             print('replay battery on', inp['net_shape'], '->', r and r['what'])
             bad += bool(r)
         elif inp and inp.get('net'):
@@ -829,6 +1041,25 @@ def replay(ctx, path):
     return 1 if bad else 0
 
 
+def replay_ranges(tn, inp):
+    """re-evaluate the recorded spelled-range evaluation (full range or recombined partial contractions)"""
+    if not inp.get('ranges'):
+        return None
+    import random
+    kw = {}
+    if inp.get('setting'):
+        kw = dict(noop_settings(random.Random(0), tn, max_bond_cap(tn)))[inp['setting']]
+    exact = py_exact(tn)
+    sps = [tuple(sp) for sp in inp['ranges']]
+    if inp.get('call') == 'parts':
+        got = Parts(tn, **kw).combine(sps, inp.get('assoc', 'left'))
+        ok = got in ('ok ' + str(round_like_impl(exact)), 'ok ' + str(exact))
+    else:
+        got = impl_contract(tn, start=sps[0][0], stop=sps[0][1], step=sps[0][2], **kw)
+        ok = got == 'ok s ' + str(round_like_impl(exact))
+    return None if ok else {'what': '{} over ranges {}: got {} exact {}'.format(inp.get('call'), sps, got, exact)}
+
+
 def replay_float(inp):
     from qecsim.tensortools import mps2d, mps as tt_mps
     R, C = (int(x) for x in inp['net']['shape'].split('x'))
@@ -839,7 +1070,13 @@ def replay_float(inp):
     name = inp.get('call', 'lr')
     tol = 1e-14 if 'tol' in name else None
     tolr = 1e-7 if tol else 1e-9
-    if name.startswith('split'):
+    if name.startswith('parts') or name.startswith('range'):
+        sps = [tuple(x) for x in json.loads(name.split(' ')[1])]
+        if name.startswith('range'):
+            v = mps2d.contract(tn, start=sps[0][0], stop=sps[0][1], step=sps[0][2])
+        else:
+            v = float_parts(tn, sps, name.split(' ')[2])
+    elif name.startswith('split'):
         k = int(name.split('k=')[1].split(' ')[0])
         l, ml = mps2d.contract(tn, stop=k, tol=tol)
         r, mr = mps2d.contract(tn, start=-1, stop=k - 1, step=-1, tol=tol)
